@@ -4,7 +4,7 @@ import struct
 from props.seqcommon import show_value, bits_f
 
 SCAL = ("i", "f", "b", "s", "d", "dt")
-WS = set("\t\n\x0b\x0c\r \x85\xa0                　")
+WS = set(map(chr, list(range(9, 14)) + [32, 0x85, 0xa0, 0x1680] + list(range(0x2000, 0x200b)) + [0x2028, 0x2029, 0x202f, 0x205f, 0x3000]))   # char::is_whitespace (Unicode White_Space)
 
 
 def num(v):
